@@ -1,2 +1,3 @@
 pub mod refsort;
 pub mod refparse;
+pub mod parse_check;
